@@ -67,6 +67,24 @@ func verifyFunction(w *World, specs *Specs, tt *TypeTable, fn *ssa.Function, c *
 		t := vc.d.declConst("p_"+sanitize(p.Name()), s)
 		st.vals[p] = Val{T: t, Typ: p.Type()}
 		vc.assumeAllocated(st, t, p.Type())
+		if mt, ok := types.Unalias(p.Type()).Underlying().(*types.Map); ok {
+			// heap well-formedness: whatever a map holds on entry refers to allocated objects
+			ks, vs := sortOf(mt.Key()), sortOf(mt.Elem())
+			mv := app("select", app("select", vc.hget(st.heap, mapValArr(ks, vs), mapValSort(ks, vs)), t), "mk")
+			var fact Term
+			switch vs {
+			case "Slice":
+				fact = and(app("<=", app("sid", mv), vc.top(st)), app(">=", app("sid", mv), "0"), app(">=", app("slen", mv), "0"), app(">=", app("soff", mv), "0"))
+			case "Int":
+				if isRefLike(mt.Elem()) {
+					fact = and(app("<=", mv, vc.top(st)), app(">=", mv, "0"))
+				}
+			}
+			if fact != "" {
+				vc.d.declSort(ks)
+				st.assume = append(st.assume, fmt.Sprintf("(forall ((mk %s)) (! %s :pattern (%s)))", ks, fact, mv))
+			}
+		}
 	}
 	for _, fv := range fn.FreeVars {
 		t := vc.d.declConst("fv_"+sanitize(fv.Name()), "Int")
@@ -101,12 +119,16 @@ func verifyFunction(w *World, specs *Specs, tt *TypeTable, fn *ssa.Function, c *
 // addAxioms includes the trusted axioms (//@ axiom) of the spec files; they speak about opaque spec functions only.
 func (vc *VC) addAxioms() {
 	for _, ax := range vc.specs.Axioms {
-		if ax.Lemma {
-			continue
+		if ax.Lemma && vc.provingLemma == ax {
+			continue // a lemma is not available to its own proof
 		}
 		e := &Env{vc: vc, pkg: ax.Pkg, vars: map[string]TV{}, heap: newHeap(), old: newHeap()}
 		vc.d.axiom(e.trBool(ax.Expr))
-		vc.usedTrusted["axiom "+ax.Label] = true
+		if ax.Lemma {
+			vc.usedTrusted["lemma "+ax.Label+" (proved as its own obligation)"] = true
+		} else {
+			vc.usedTrusted["axiom "+ax.Label] = true
+		}
 	}
 }
 
@@ -135,6 +157,32 @@ func (vc *VC) buildProbes(st *State, env *Env) {
 			vc.probes = append(vc.probes, Probe{Name: fmt.Sprintf("%s_%d", pd.Name, k), Term: ce.tr(pd.Expr).T})
 		}
 	}
+}
+
+func proveLemma(w *World, specs *Specs, tt *TypeTable, ax *Axiom) (res *funcResult) {
+	vc := newVC(w, specs, tt)
+	vc.key = "lemma:" + ax.Label
+	vc.provingLemma = ax
+	res = &funcResult{Key: vc.key}
+	defer func() {
+		if r := recover(); r != nil {
+			switch e := r.(type) {
+			case outOfSubset:
+				res.Err = e.msg
+			case specError:
+				res.Err = e.msg
+			default:
+				panic(r)
+			}
+		}
+		res.Obls = vc.obls
+	}()
+	vc.addAxioms()
+	st := &State{vals: map[ssa.Value]Val{}, heap: newHeap(), callCount: map[string]int{}, iters: map[ssa.Value]*iterInfo{}, wgAdded: map[string]Term{}, loopHeap: map[*ssa.BasicBlock]*Heap{}}
+	e := &Env{vc: vc, pkg: ax.Pkg, vars: map[string]TV{}, heap: st.heap, old: st.heap}
+	g := e.trBool(ax.Expr)
+	vc.oblige(st, g, ax.Label, "lemma", fmt.Sprintf("%s:%d", ax.File, ax.Line), ax.Props, ax.Src, "")
+	return res
 }
 
 // typeParamsOf maps the type parameter names of a generic function (or of its receiver) to themselves.
@@ -287,6 +335,19 @@ func generate(o *options) (*runOutput, error) {
 			continue
 		}
 		out.results = append(out.results, verifyFunction(w, specs, tt, fn, c))
+	}
+	// lemmas: pure logical facts over spec functions, proved once and then available everywhere
+	for _, ax := range specs.Axioms {
+		if !ax.Lemma {
+			continue
+		}
+		if o.prop != "" && !hasProp(ax.Props, o.prop) {
+			continue
+		}
+		if o.fn != "" && !strings.Contains("lemma:"+ax.Label, o.fn) {
+			continue
+		}
+		out.results = append(out.results, proveLemma(w, specs, tt, ax))
 	}
 	out.genS = time.Since(t1).Seconds()
 	return out, nil
